@@ -439,7 +439,18 @@ func (r *rw) apply(f *ast.File) {
 	}
 	// pass 1: selects (so that their comm statements are not touched by pass 2)
 	inSelectComm := map[ast.Node]bool{}
+	twoValRecv := map[*ast.UnaryExpr]bool{} // v, ok := <-ch outside select
 	astutil.Apply(f, func(c *astutil.Cursor) bool {
+		if as, ok := c.Node().(*ast.AssignStmt); ok && len(as.Lhs) == 2 && len(as.Rhs) == 1 {
+			if u, ok := as.Rhs[0].(*ast.UnaryExpr); ok && u.Op == token.ARROW {
+				twoValRecv[u] = true
+			}
+		}
+		if vs, ok := c.Node().(*ast.ValueSpec); ok && len(vs.Names) == 2 && len(vs.Values) == 1 {
+			if u, ok := vs.Values[0].(*ast.UnaryExpr); ok && u.Op == token.ARROW {
+				twoValRecv[u] = true
+			}
+		}
 		if s, ok := c.Node().(*ast.SelectStmt); ok {
 			for _, cl := range s.Body.List {
 				if cm := cl.(*ast.CommClause).Comm; cm != nil {
@@ -465,13 +476,22 @@ func (r *rw) apply(f *ast.File) {
 		switch n := c.Node().(type) {
 		case *ast.GoStmt:
 			r.used = true
-			for _, a := range n.Call.Args {
+			// arguments are evaluated by the go statement itself, not by the new goroutine: hoist the non-trivial ones
+			var hoist []ast.Stmt
+			for i, a := range n.Call.Args {
 				if !simpleArg(a) {
-					fatal("go statement with non-trivial argument at %s (evaluation order would change)", r.pos(n))
+					id := ast.NewIdent(fmt.Sprintf("vga%d__", i))
+					hoist = append(hoist, &ast.AssignStmt{Lhs: []ast.Expr{id}, Tok: token.DEFINE, Rhs: []ast.Expr{a}})
+					n.Call.Args[i] = id
 				}
 			}
-			c.Replace(&ast.ExprStmt{X: call("vsched", "Go", lit(r.pos(n)),
-				&ast.FuncLit{Type: &ast.FuncType{Params: &ast.FieldList{}}, Body: &ast.BlockStmt{List: []ast.Stmt{&ast.ExprStmt{X: n.Call}}}})})
+			goCall := &ast.ExprStmt{X: call("vsched", "Go", lit(r.pos(n)),
+				&ast.FuncLit{Type: &ast.FuncType{Params: &ast.FieldList{}}, Body: &ast.BlockStmt{List: []ast.Stmt{&ast.ExprStmt{X: n.Call}}}})}
+			if len(hoist) > 0 {
+				c.Replace(&ast.BlockStmt{List: append(hoist, goCall)})
+			} else {
+				c.Replace(goCall)
+			}
 		case *ast.SendStmt:
 			if !inSelectComm[n] {
 				r.used = true
@@ -480,7 +500,11 @@ func (r *rw) apply(f *ast.File) {
 		case *ast.UnaryExpr:
 			if n.Op == token.ARROW && !inSelectComm[n] {
 				r.used = true
-				c.Replace(call("vsched", "Recv", lit(r.pos(n)), n.X))
+				fn := "Recv"
+				if twoValRecv[n] {
+					fn = "Recv2"
+				}
+				c.Replace(call("vsched", fn, lit(r.pos(n)), n.X))
 			}
 		case *ast.CallExpr:
 			if id, ok := n.Fun.(*ast.Ident); ok && len(n.Args) == 1 && chanCall[n] {
@@ -493,15 +517,29 @@ func (r *rw) apply(f *ast.File) {
 					c.Replace(call("vsched", "Close", lit(r.pos(n)), n.Args[0]))
 				}
 			}
-		case *ast.AssignStmt:
-			if len(n.Lhs) == 2 && len(n.Rhs) == 1 && !inSelectComm[n] {
-				if u, ok := n.Rhs[0].(*ast.UnaryExpr); ok && u.Op == token.ARROW {
-					fatal("two-value receive outside select at %s is not supported", r.pos(n))
-				}
-			}
 		case *ast.RangeStmt:
 			if chanRange[n] {
-				fatal("range over channel at %s is not supported", r.pos(n))
+				// for v := range ch { body }  =>  for { v, ok := Recv2(ch); if !ok { break }; body }
+				r.used = true
+				okID := ast.NewIdent("vok__")
+				var lhs ast.Expr = ast.NewIdent("_")
+				tok := token.DEFINE
+				if n.Key != nil {
+					lhs = n.Key
+					if n.Tok == token.ASSIGN {
+						// the loop variable exists already: v, vok__ = ... needs vok__ declared
+						tok = token.ASSIGN
+					}
+				}
+				var pre []ast.Stmt
+				if tok == token.ASSIGN {
+					pre = append(pre, &ast.DeclStmt{Decl: &ast.GenDecl{Tok: token.VAR, Specs: []ast.Spec{&ast.ValueSpec{Names: []*ast.Ident{okID}, Type: ast.NewIdent("bool")}}}})
+				}
+				pre = append(pre,
+					&ast.AssignStmt{Lhs: []ast.Expr{lhs, okID}, Tok: tok, Rhs: []ast.Expr{call("vsched", "Recv2", lit(r.pos(n)), n.X)}},
+					&ast.IfStmt{Cond: &ast.UnaryExpr{Op: token.NOT, X: okID}, Body: &ast.BlockStmt{List: []ast.Stmt{&ast.BranchStmt{Tok: token.BREAK}}}})
+				c.Replace(&ast.ForStmt{Body: &ast.BlockStmt{List: append(pre, n.Body.List...)}})
+				return true
 			}
 			if mapRange[n] {
 				r.used = true
